@@ -379,6 +379,22 @@ fn run_case(seed: u64, idx: u64, _tier: Tier, out: &mut CaseOut) {
     } else {
         String::new()
     };
+    // a <pre> whose white-space is overridden by CSS is still a <pre>: its text keeps
+    // the Preformat annotation whatever way it is wrapped
+    if coloured && rng.chance(1, 3) {
+        ast::for_each_el_mut(&mut doc, &mut |e| {
+            if e.tag == "pre" && rng.chance(1, 2) {
+                let ws = *rng.pick(&["normal", "nowrap", "pre-line", "pre-wrap", "pre"]);
+                let old = e.get_attr("style").map(|s| s.to_string());
+                let st = match old {
+                    Some(o) if !o.is_empty() => format!("{}; white-space: {}", o.trim_end_matches(';'), ws),
+                    _ => format!("white-space: {}", ws),
+                };
+                e.set_attr("style", &st);
+            }
+        });
+        out.inc("docs_with_white_space_on_pre");
+    }
     // (span-wrapping the digits of a superscript changes its rendering: known C13
     // finding, so documents with digit superscripts keep their inline structure)
     let input = if rng.chance(1, 2) {
